@@ -1530,9 +1530,80 @@ func c06AllocClamp(ru *fw.Rule, p *fw.Program) {
 			if env == nil {
 				env = fw.NewPolyEnv(fn)
 			}
+			// the caller's count itself is allocated only where it was compared with the clamp (or the length of
+			// the input is unknown): a clamp skipped under any other condition (`maxBytes > 0 && ...`) is no clamp
+			var rawEdges func(v ssa.Value, d int) []string
+			rawEdges = func(v ssa.Value, d int) []string {
+				var bad []string
+				ph, ok := fw.SxStripConv(v).(*ssa.Phi)
+				if !ok || d > 4 {
+					return nil
+				}
+				for i, ev := range ph.Edges {
+					sv := fw.SxStripConv(ev)
+					if _, isPhi := sv.(*ssa.Phi); isPhi {
+						bad = append(bad, rawEdges(sv, d+1)...)
+						continue
+					}
+					par, isPar := sv.(*ssa.Parameter)
+					if !isPar {
+						continue
+					}
+					pred := ph.Block().Preds[i]
+					cd, ok := fw.EdgeCond(pred, ph.Block())
+					okEdge := false
+					if bo, isBin := cd.Val.(*ssa.BinOp); ok && isBin {
+						for _, o := range []ssa.Value{bo.X, bo.Y} {
+							if fw.SxStripConv(o) == ssa.Value(par) {
+								okEdge = true // the count was compared (with the clamp value: the clamped edge carries it)
+							}
+							if types.Identical(o.Type(), types.Universe.Lookup("error").Type()) {
+								okEdge = true // length of the input unknown
+							}
+						}
+					}
+					if ok && !okEdge {
+						// a test over the reader's own state only (bits left >= 0 is the invariant C03.inside / C03.lower
+						// keep) cannot be steered by the caller; one over another argument (an offset) can
+						free := false
+						seenV := map[ssa.Value]bool{}
+						var dep func(v ssa.Value, d int)
+						dep = func(v ssa.Value, d int) {
+							if v == nil || seenV[v] || d > 10 {
+								return
+							}
+							seenV[v] = true
+							if pp, isP := v.(*ssa.Parameter); isP && (len(fn.Params) == 0 || pp != fn.Params[0]) {
+								free = true
+							}
+							if in, isIn := v.(ssa.Instruction); isIn {
+								for _, op := range in.Operands(nil) {
+									if *op != nil {
+										dep(*op, d+1)
+									}
+								}
+							}
+						}
+						dep(cd.Val, 0)
+						okEdge = !free
+					}
+					if !okEdge {
+						what := "unconditionally"
+						if ok {
+							what = "under a test over another argument that does not involve the count: " + fw.SxStripConv(cd.Val).String()
+						}
+						bad = append(bad, what)
+					}
+				}
+				return bad
+			}
 			for _, e := range edges {
 				for _, a := range env.Of(e).Atoms() {
 					if strings.Contains(a, "TryBitsLeft") || strings.Contains(a, "TryLen") || strings.Contains(a, "BitsLeft") {
+						if bad := rawEdges(ms.Len, 0); len(bad) > 0 {
+							ru.Fail(key, p.Rel(ms.Pos()), "the clamp of the allocation is skipped "+strings.Join(bad, "; ")+": there the caller's count is allocated as it is (an offset past the end made the old `maxBytes > 0 &&` test skip the clamp: makeslice panic)")
+							return
+						}
 						ru.Ok(key, p.Rel(ms.Pos()), "allocation is clamped by "+env.Of(e).String())
 						return
 					}
